@@ -41,6 +41,7 @@ pub const EDIT_CLASSES: &[&str] = &[
     "event_name",
     "make_type_reachable",
     "move_type_to_other_file",
+    "delete_source_file",
     "comment",
     "decoy_fn",
     "non_serde_type",
@@ -445,6 +446,21 @@ pub fn gen_edit(r: &mut Rng, class: &str, m: &Model) -> Option<(Model, String)> 
             let to = (from + 1 + r.below(m2.files.len() as u64 - 1) as usize) % m2.files.len();
             desc = format!("move type {} from {} to {}", n, m2.files[from].path, m2.files[to].path);
             m2.files[to].items.push(it);
+        }
+        "delete_source_file" => {
+            // a whole file goes away (with whatever it declared); at least one command stays
+            let cands: Vec<usize> = (0..m2.files.len())
+                .filter(|k| {
+                    let rest: usize = m2.files.iter().enumerate().filter(|(j, _)| j != k).map(|(_, f)| f.items.iter().filter(|i| matches!(i, Item::Cmd(c) if c.is_command)).count()).sum();
+                    rest >= 1 && !m2.files[*k].items.is_empty()
+                })
+                .collect();
+            if m2.files.len() < 2 || cands.is_empty() {
+                return None;
+            }
+            let k = *r.pick(&cands);
+            let f = m2.files.remove(k);
+            desc = format!("delete source file {}", f.path);
         }
         "comment" => {
             let k = r.below(m2.files.len() as u64) as usize;
